@@ -1,8 +1,16 @@
 package main
 
+import "sort"
+
 var k1Assumption = "K1 trusts ent's generated API mapping: builder setters write the column named by the generated Field*/…Column constants, and generated predicates mean what the sql.Field* call in their body says"
 
 func allProps() []*propInfo {
+	ps := allPropsUnsorted()
+	sort.Slice(ps, func(i, j int) bool { return ps[i].ID < ps[j].ID })
+	return ps
+}
+
+func allPropsUnsorted() []*propInfo {
 	return []*propInfo{
 		{
 			ID: "C01",
@@ -15,7 +23,7 @@ func allProps() []*propInfo {
 				"NOT decided: clock arithmetic (that attempt_at/expires_at values make a message due again), database semantics, the history-level claim itself.",
 			Assumptions: []string{k1Assumption, "database executes the statements as ent renders them"},
 			Rules: []ruleFn{
-				{ID: "C01.1", Doc: "[who] retirement ownership of delivery rows", Run: ruleC01_1},
+				{ID: "C01.1", Doc: "[who] retirement ownership of delivery rows", Run: ruleC01_1, Ctrl: true},
 				{ID: "C01.2", Doc: "[atoms] prune/ack selections are exactly their justification", Run: ruleC01_2},
 				{ID: "C01.3", Doc: "[dom] publish fan-out reaches every live subscription", Run: ruleC01_3},
 				{ID: "C01.4", Doc: "[atoms] pull eligibility is exact", Run: ruleC01_4},
@@ -33,9 +41,10 @@ func allProps() []*propInfo {
 			Assumptions: []string{k1Assumption, "protobuf/ent field names correspond one-to-one as in the generated code"},
 			Rules: []ruleFn{
 				{ID: "C02.1", Doc: "[atoms] pull scoping and response bound", Run: ruleC02_1},
-				{ID: "C02.2", Doc: "[atoms] no unscoped delivery mutation", Run: ruleC02_2},
+				{ID: "C02.2", Doc: "[atoms] no unscoped delivery mutation", Run: ruleC02_2, Ctrl: true},
 				{ID: "C02.3", Doc: "[who] messages are immutable", Run: ruleC02_3},
 				{ID: "C02.4", Doc: "[dep] content provenance", Run: ruleC02_4},
+				{ID: "C06.4", Doc: "[dom][who] (shared) dead-letter forwarding loads the original message whole, so the target subscriptions' filters see its attributes", Run: ruleC06_4},
 			},
 		},
 		{
@@ -44,13 +53,14 @@ func allProps() []*propInfo {
 				"C03.1 deliveries.completed_at is cleared only by the two seek actions; C03.2 the pull selection excludes completed rows on every path; " +
 				"C03.3 delivery rows are created only by deliverToSubscription, called only from publish and dead-letter forwarding (no path re-enqueues an acked message); " +
 				"C03.4 ack/nack/modify-deadline return only errors that originate from storage/helper calls (no self-made error for unknown, stale or foreign ids) and their bulk statements are addressed by id IN <ids>. " +
-				"Deliberately not demanded: the completed_at IS NULL guards in nack/modify-deadline (dropping them does not resurrect an acked message; the guard that matters is C06.5). NOT decided: the history-level claim.",
+				"C06.5 (shared) a nack selects only outstanding rows, so a late nack of an acked id neither forwards it to the dead-letter topic nor rewrites it. Deliberately not demanded: the completed_at IS NULL guard in modify-deadline (dropping it does not resurrect an acked message: the pull excludes completed rows). NOT decided: the history-level claim.",
 			Assumptions: []string{k1Assumption},
 			Rules: []ruleFn{
-				{ID: "C03.1", Doc: "[who] completion is undone only by seek", Run: ruleC03_1},
+				{ID: "C03.1", Doc: "[who] completion is undone only by seek", Run: ruleC03_1, Ctrl: true},
 				{ID: "C03.2", Doc: "[atoms] pull excludes completed rows", Run: ruleC03_2},
-				{ID: "C03.3", Doc: "[who] delivery rows are created only on publish/dead-letter", Run: ruleC03_3},
+				{ID: "C03.3", Doc: "[who] delivery rows are created only on publish/dead-letter", Run: ruleC03_3, Ctrl: true},
 				{ID: "C03.4", Doc: "[K5] idempotent ack/nack/modify-deadline", Run: ruleC03_4},
+				{ID: "C06.5", Doc: "[atoms] (shared) a nack's candidates are outstanding: a late nack of an acked id has no side effect (no dead-letter forward, no reschedule)", Run: ruleC06_5},
 			},
 		},
 		{
@@ -97,7 +107,7 @@ func allProps() []*propInfo {
 				"NOT decided: 'exactly once' under concurrent PostgreSQL transactions, counting N over histories, topology effects.",
 			Assumptions: []string{k1Assumption},
 			Rules: []ruleFn{
-				{ID: "C06.1", Doc: "[who] callers of deadLetterDelivery", Run: ruleC06_1},
+				{ID: "C06.1", Doc: "[who] callers of deadLetterDelivery", Run: ruleC06_1, Ctrl: true},
 				{ID: "C06.2", Doc: "[dom][atoms] trigger condition", Run: ruleC06_2},
 				{ID: "C06.3", Doc: "[dom] dead-lettered xor delivered/rescheduled", Run: ruleC06_3},
 				{ID: "C06.4", Doc: "[dom][who] forward and retire in one step", Run: ruleC06_4},
@@ -115,7 +125,7 @@ func allProps() []*propInfo {
 				"NOT decided: races under PostgreSQL isolation levels, histories, 'inherits no backlog' beyond C12.3.",
 			Assumptions: []string{k1Assumption, "SQLite evaluates LIKE case-insensitively, PostgreSQL case-sensitively (documented behaviour)"},
 			Rules: []ruleFn{
-				{ID: "C12.1", Doc: "[atoms] live-only name resolution", Run: ruleC12_1},
+				{ID: "C12.1", Doc: "[atoms] live-only name resolution", Run: ruleC12_1, Ctrl: true},
 				{ID: "C12.2", Doc: "[dom] create: exists check, duplicate-key mapping, AlreadyExists", Run: ruleC12_2},
 				{ID: "C12.3", Doc: "[atoms][who] soft delete discipline", Run: ruleC12_3},
 				{ID: "C12.4", Doc: "[tab] unique indexes", Run: ruleC12_4},
@@ -179,9 +189,9 @@ func allProps() []*propInfo {
 				"NOT decided: driver/database atomicity, cancellation timing, 'retry has the same effect', the pull's first (expiry-refresh) transaction committing before a later one fails.",
 			Assumptions: []string{k1Assumption, "the SQL driver makes a transaction atomic; Rollback undoes every statement of it"},
 			Rules: []ruleFn{
-				{ID: "C09.1", Doc: "[K5] no storage error is dropped inside a transaction", Run: ruleC09_1},
+				{ID: "C09.1", Doc: "[K5] no storage error is dropped inside a transaction", Run: ruleC09_1, Ctrl: true},
 				{ID: "C09.2", Doc: "[dom] transaction helpers commit iff success", Run: ruleC09_2},
-				{ID: "C09.3", Doc: "[K4][who] wake-ups only after a successful commit", Run: ruleC09_3},
+				{ID: "C09.3", Doc: "[K4][who] wake-ups only after a successful commit", Run: ruleC09_3, Ctrl: true},
 				{ID: "C09.4", Doc: "[dom] one operation, one transaction", Run: ruleC09_4},
 				{ID: "C09.5", Doc: "[dom] no error after commit in unary handlers", Run: ruleC09_5},
 			},
@@ -199,8 +209,8 @@ func allProps() []*propInfo {
 				{ID: "C10.1", Doc: "[dom] register before query in every epoch; waited channel is the registered one (C10.2)", Run: ruleC10_1_2},
 				{ID: "C10.3", Doc: "[K2] broadcasts reach every target", Run: ruleC10_3},
 				{ID: "C10.4", Doc: "[dom][who] committing writers notify", Run: ruleC10_4},
-				{ID: "C09.3", Doc: "[K4] (shared, = C10.5) wake-ups only after a successful commit", Run: ruleC09_3},
-				{ID: "C10.6", Doc: "[lock] notifier maps under nmu", Run: ruleC10_6},
+				{ID: "C09.3", Doc: "[K4] (shared, = C10.5) wake-ups only after a successful commit", Run: ruleC09_3, Ctrl: true},
+				{ID: "C10.6", Doc: "[lock] notifier maps under nmu", Run: ruleC10_6, Ctrl: true},
 				{ID: "C10.7", Doc: "[dom] closed channels are removed", Run: ruleC10_7},
 			},
 		},
@@ -248,9 +258,9 @@ func allProps() []*propInfo {
 				"NOT decided: the exact count min(N, matches) over schedules (C18.1/2 are its memory-ordering and re-check conditions), request-to-parameter extraction for all messages.",
 			Assumptions: []string{"sync/atomic and sync.RWMutex semantics"},
 			Rules: []ruleFn{
-				{ID: "C18.1", Doc: "atomic discipline on Description.Count", Run: ruleC18_1},
+				{ID: "C18.1", Doc: "atomic discipline on Description.Count", Run: ruleC18_1, Ctrl: true},
 				{ID: "C18.2", Doc: "[K6 sign] fire exactly for a non-negative remainder; re-match on a lost race", Run: ruleC18_2},
-				{ID: "C18.3", Doc: "[lock] fault table under Set.mu", Run: ruleC18_3},
+				{ID: "C18.3", Doc: "[lock] fault table under Set.mu", Run: ruleC18_3, Ctrl: true},
 				{ID: "C18.4", Doc: "[dom] subset match", Run: ruleC18_4},
 				{ID: "C18.5", Doc: "[dom] prune / listing thresholds", Run: ruleC18_5},
 				{ID: "C18.6", Doc: "[dom] pooled parameter map is emptied", Run: ruleC18_6},
@@ -311,11 +321,12 @@ func allProps() []*propInfo {
 			Explanation: "Static necessary conditions of 'configuration round-trips': " +
 				"C17.1 (K9 data dependence) every configuration field CreateSubscription accepts flows request → action parameter → its column, and every such column is read back by entSubscriptionToGrpc into the corresponding response field (labels, retention, expiration TTL, ordering flag, filter, retry policy, dead-letter policy, push endpoint; topics: labels); " +
 				"C17.2 update-mask locality: in UpdateSubscription / UpdateTopic the set of columns mutated under each mask path equals the frozen table, no column is mutated outside a mask path, unknown paths are rejected, and the no-op shortcut that skips the save checks every kind of mutation (set / cleared / added) the handler can apply. " +
-				"NOT decided: the interval codec (all durations / all PostgreSQL interval strings — numeric), defaults' values, sequences of updates.",
+				"C17.3 in the stored-duration codec no floating-point value computed from the parsed digits is truncated to an integer (a length-derived power of ten is exact and allowed; math.Round first is allowed). NOT decided: the rest of the interval codec (all durations / all PostgreSQL interval strings — numeric), defaults' values, sequences of updates.",
 			Assumptions: []string{k1Assumption, "protobuf/ent field names correspond one-to-one as in the generated code"},
 			Rules: []ruleFn{
 				{ID: "C17.1", Doc: "[dep] create mapping is complete", Run: ruleC17_1},
 				{ID: "C17.2", Doc: "[atoms] update-mask locality", Run: ruleC17_2},
+				{ID: "C17.3", Doc: "[dep] the duration codec never truncates a digits-derived float", Run: ruleC17_3},
 			},
 		},
 	}
